@@ -47,7 +47,7 @@ def run(tier, seed):
                 it["eff"] = it["eff"][:-1]
                 return k + 1
         return 0
-    seeds = [seed * 1000 + i for i in range(2 if quick else 10)]
+    seeds = [seed * 1000 + i for i in range(2 if quick else 30)]
     vlib.trace_rounds(c, "Trace_CertChain", "certchain", seeds, 120 if quick else 1500, mut, xmx="6g")
     c.cov["rule"] = ("cases = every maximal behaviour of MC_CertChain in its four modes (quick: every third of the resource mode); non-trivial = "
                      "chain of at least two certificates; traces = random issuer/child links with large random full-width resource sets, "
